@@ -43,10 +43,35 @@ theorem addFontData_eq (f : TdfFont) (h : WfTdf f) : addFontData f = .ok (fontBy
   rw [if_neg (by have := w.size; omega)]
   rfl
 
+theorem fontBytes_head (f : TdfFont) : ∃ r, fontBytes f = 0x55 :: r := ⟨_, rfl⟩
+
+theorem fontBytes_length (f : TdfFont) (h : WfTdf f) : 213 ≤ (fontBytes f).length := by
+  have w := wf_facts f h
+  have hl : (u16s (encOffs 0 f.table)).length = 188 := by
+    have : ∀ l : List Nat, (u16s l).length = 2 * l.length := by
+      intro l; induction l with
+      | nil => rfl
+      | cons x xs ih => simp [u16s, u16le, ih]; omega
+    rw [this, encOffs_length, w.tlen]
+  have := w.nameLen
+  simp [fontBytes, indicator, u16le, hl]
+  omega
+
+/-- all fonts of a bundle, concatenated -/
+def bundleBytes : List TdfFont → List Nat
+  | [] => []
+  | f :: fs => fontBytes f ++ bundleBytes fs
+
+
 theorem readFont_fontBytes (f : TdfFont) (h : WfTdf f) (tail : List Nat) :
     readFont (fontBytes f ++ tail) = .ok (f, tail) := by
   have w := wf_facts f h
-  unfold fontBytes readFont
+  have hlen : ¬ ((fontBytes f ++ tail).length < 213) := by
+    have := fontBytes_length f h
+    simp only [List.length_append]; omega
+  unfold readFont
+  rw [if_neg hlen]
+  unfold fontBytes
   simp only [indicator, List.cons_append, List.nil_append, List.append_assoc]
   simp only [ne_eq, not_true_eq_false, if_false, gt_iff_lt, Nat.lt_irrefl]
   generalize hY : f.ftype :: asU8 f.spaces :: (u16le (encData f.table).length ++
@@ -87,25 +112,6 @@ theorem readFont_fontBytes (f : TdfFont) (h : WfTdf f) (tail : List Nat) :
   rw [hlossy, hsp]
 
 
-
-theorem fontBytes_head (f : TdfFont) : ∃ r, fontBytes f = 0x55 :: r := ⟨_, rfl⟩
-
-theorem fontBytes_length (f : TdfFont) (h : WfTdf f) : 213 ≤ (fontBytes f).length := by
-  have w := wf_facts f h
-  have hl : (u16s (encOffs 0 f.table)).length = 188 := by
-    have : ∀ l : List Nat, (u16s l).length = 2 * l.length := by
-      intro l; induction l with
-      | nil => rfl
-      | cons x xs ih => simp [u16s, u16le, ih]; omega
-    rw [this, encOffs_length, w.tlen]
-  have := w.nameLen
-  simp [fontBytes, indicator, u16le, hl]
-  omega
-
-/-- all fonts of a bundle, concatenated -/
-def bundleBytes : List TdfFont → List Nat
-  | [] => []
-  | f :: fs => fontBytes f ++ bundleBytes fs
 
 theorem bundleData_eq (fs : List TdfFont) (h : ∀ f ∈ fs, WfTdf f) : bundleData fs = .ok (bundleBytes fs) := by
   induction fs with
